@@ -17,6 +17,8 @@ def universe(level):
         ("Lit{a}", lambda: L({"a"})), ("Lit{b,c}", lambda: L({"b", "c"})), ("Lit{overflow}", lambda: L({"x" * 20})),
         ("List[int]", lambda: DList(int)), ("List[Unknown]", lambda: DList(Unknown)), ("List[Null]", lambda: DList(Null)),
         ("Dict[str]", lambda: DDict(str)), ("Opt[int]", lambda: DOptional(int)), ("model{x:int}", lambda: {"x": int}),
+        # raw detection result of [[1, 1.5]] (detection does not simplify; simplification must reach inside nested containers)
+        ("List[List[Union[int,float]]]", lambda: DList(DList(DUnion(int, float)))),
     ]
     if level == "full":
         u += [
@@ -106,6 +108,38 @@ def scen_inputs(ch, params, out):
     out.check(before == after, "not_idempotent", lambda: f"{before} -> {after} for samples {st['samples']}", "not_idempotent")
 
 
+def scen_late_registration(ch, params, out):
+    """a pseudo-type registered AFTER the generator object exists must take part in simplification like any other"""
+    from json_to_models.dynamic_typing import (BooleanString, FloatString, IntString, StringSerializableRegistry, register_datetime_classes)
+    from json_to_models.generator import MetadataGenerator
+    from vflib import oracles
+    vals = ["2018-12-31", "12:58:12", "2018-12-31T12:58:12", "true", "12", "abc", None, 7]
+    v1, v2 = ch.choose("values", [(a, b) for a in vals for b in vals], shard=True)
+    wrap = ch.choose("position", ["field", "list", "both_in_one_list"])
+    when = ch.choose("datetime_types_registered", ["before_generator_is_created", "after_generator_is_created"])
+    reg = StringSerializableRegistry()
+    reg.add(cls=IntString)
+    reg.add(replace_types=(IntString,), cls=FloatString)
+    reg.add(cls=BooleanString)
+    if when.startswith("before"):
+        register_datetime_classes(reg)
+    gen = MetadataGenerator(str_types_registry=reg)
+    if when.startswith("after"):
+        register_datetime_classes(reg)
+    samples = [{"a": v1}, {"a": v2}] if wrap == "field" else ([{"a": [v1]}, {"a": [v2]}] if wrap == "list" else [{"a": [v1, v2]}])
+    out.info = {"values": [v1, v2], "position": wrap, "when": when}
+    try:
+        ir = gen.generate(*samples)
+    except Exception as e:
+        out.fail("simplification_raises_on_input", f"{type(e).__name__}: {e} for {samples} ({when})", "simplification_raises_on_input")
+        return
+    bad = oracles.normal_form_violations(ir, reg)
+    out.check(not bad, "not_normal_form", lambda: f"{samples} with datetime types registered {when}: {ir} -> {bad}", "not_normal_form:late_registration")
+    c1 = oracles.canon_str(oracles.canon_ir(ir))
+    ir2 = gen.optimize_type(ir)
+    out.check(c1 == oracles.canon_str(oracles.canon_ir(ir2)), "not_idempotent", lambda: f"{samples} ({when}): {c1} -> second pass differs", "not_idempotent")
+
+
 def parts(tier):
     if tier == "quick":
         return [
@@ -113,22 +147,24 @@ def parts(tier):
             CH("inputs", "vflib.props.c08:scen_inputs", {"kinds": "KINDS_FULL", "samples": 2, "keys": ["a"], "symbolic_leaves": False,
                                                          "merge": ["default"]},
                shards=16, timeout=170, path_timeout=30),
+            CH("late_registration", "vflib.props.c08:scen_late_registration", {}, shards=16, timeout=170, path_timeout=30),
             CH("inputs_two_nested", "vflib.props.c08:scen_inputs", {"kinds": "KINDS_NEST", "samples": 1, "keys": ["a", "b"],
                                                                      "symbolic_leaves": False, "merge": ["default", "p50n2"]},
                shards=16, timeout=170, path_timeout=30),
         ]
     return [
-        CH("universe40", "vflib.props.c08:scen_universe", {"universe": "full", "max": 3}, shards=16, timeout=700, path_timeout=30),
+        CH("late_registration", "vflib.props.c08:scen_late_registration", {}, shards=16, timeout=400, path_timeout=30),
+        CH("universe40", "vflib.props.c08:scen_universe", {"universe": "full", "max": 3}, shards=16, timeout=400, path_timeout=30),
         CH("inputs", "vflib.props.c08:scen_inputs", {"kinds": "KINDS_FULL", "samples": 2, "keys": ["a"], "symbolic_leaves": False,
-                                                     "merge": ["default", "p50n2"], "dkf": True}, shards=16, timeout=600, path_timeout=30),
+                                                     "merge": ["default", "p50n2"], "dkf": True}, shards=16, timeout=400, path_timeout=30),
         CH("inputs_grammar_depth1_pairs", "vflib.props.c08:scen_inputs", {"kinds": "GRAMMAR1", "samples": 2, "keys": ["a"], "symbolic_leaves": False},
-           shards=16, timeout=700, path_timeout=30),
+           shards=16, timeout=400, path_timeout=30),
         CH("inputs_grammar_depth2_pairs", "vflib.props.c08:scen_inputs", {"kinds": "GRAMMAR2", "samples": 2, "keys": ["a"], "symbolic_leaves": False},
-           shards=16, timeout=900, path_timeout=30),
+           shards=16, timeout=400, path_timeout=30),
         CH("inputs3", "vflib.props.c08:scen_inputs", {"kinds": "KINDS_SMALL", "samples": 3, "keys": ["a"], "symbolic_leaves": False},
-           shards=16, timeout=600, path_timeout=30),
+           shards=16, timeout=400, path_timeout=30),
         CH("inputs_nested", "vflib.props.c08:scen_inputs", {"kinds": "KINDS_NEST", "samples": 2, "keys": ["a", "b"], "symbolic_leaves": False,
-                                                            "merge": ["default", "p50n2"]}, shards=16, timeout=700, path_timeout=30),
+                                                            "merge": ["default", "p50n2"]}, shards=16, timeout=400, path_timeout=30),
     ]
 
 
